@@ -406,6 +406,15 @@ def _check_sections(prog: Program, res: Result):
                 st.emit("VALIDATED", kw, node)
             return None
 
+    # alternative idiom: errors = [list(] validator.iter_errors(instance) [)] ; verdict decided by the emptiness of THAT collection
+    iter_names = set()
+    for n in ast.walk(bfi.node):
+        if isinstance(n, ast.Assign) and len(n.targets) == 1 and isinstance(n.targets[0], ast.Name):
+            v_ = n.value
+            while isinstance(v_, ast.Call) and attr_chain(v_.func) in ("list", "sorted", "tuple") and v_.args:
+                v_ = v_.args[0]
+            if isinstance(v_, ast.Call) and isinstance(v_.func, ast.Attribute) and v_.func.attr == "iter_errors" and v_.args and ast.unparse(v_.args[0]) == "instance":
+                iter_names.add(n.targets[0].id)
     e3 = Engine(prog, bfi, HB())
     s0 = State()
     for p in bfi.params():
@@ -423,6 +432,18 @@ def _check_sections(prog: Program, res: Result):
             if v.const_value() == 0:
                 seen_zero = True
                 ok = did and not caught
+                if not did and iter_names and not caught:
+                    # 0 only on a path that has established that the collection of ALL schema errors is empty
+                    pass
+                if not did and iter_names and not caught:
+                    empties = [nm for nm in iter_names if f.facts.get(nm) is False or f.sign_of(sym.call("len", [Rat.atom(nm)])) == frozenset("0")
+                               or (isinstance(f.env.get(nm), Rat) and (f.sign_of(f.env[nm]) == frozenset("0") or f.sign_of(sym.call("len", [f.env[nm]])) == frozenset("0")))]
+                    ok = bool(empties)
+                    res.ob("R18.3", "validate_schema_instance returns 0 only when the collection of all schema errors (iter_errors) is empty", ok, prog.loc(bfi, f.exit[2]))
+                    if not ok:
+                        res.violation("R18.3", "base-zero-with-errors", prog.loc(bfi, f.exit[2]), bq,
+                                      "validate_schema_instance returns 0 on a path that has not established that iter_errors(instance) is empty: some schema violations (e.g. missing keys, which carry no path) are not counted")
+                    continue
                 res.ob("R18.3", "validate_schema_instance returns 0 only after jsonschema.validate() succeeded", ok, prog.loc(bfi, f.exit[2]))
                 if not ok:
                     res.violation("R18.3", "base-zero-without-validate", prog.loc(bfi, f.exit[2]), bq,
@@ -430,6 +451,9 @@ def _check_sections(prog: Program, res: Result):
             else:
                 if caught:
                     seen_handler = True
+                elif iter_names and any(f.facts.get(nm) is True or "0" not in f.sign_of(sym.call("len", [Rat.atom(nm)]))
+                                        or (isinstance(f.env.get(nm), Rat) and ("0" not in f.sign_of(f.env[nm]) or "0" not in f.sign_of(sym.call("len", [f.env[nm]])))) for nm in iter_names):
+                    seen_handler = True  # non-zero verdict on a path where errors were found
         else:
             raise AnalysisError(f"{bq}: verdict not understood: {vtxt(v)}")
     res.ob("R18.3", "validate_schema_instance has a success path and a failing handler path", seen_zero and seen_handler, prog.loc(bfi, bfi.node))
@@ -587,7 +611,13 @@ def _check_case(prog: Program, res: Result):
                           f"mixed-case name that passed validation would be rejected (or mis-dispatched) here")
 
 
+_VSI_OLD = '    try:\n        schema_dir = Path(__file__).parent / "schemas"\n        schema_path = schema_dir / schema_file_name\n        schema = loads(schema_path.read_text())\n        validate(instance=instance, schema=schema)\n        return 0\n    except ValidationError:\n        print(error_msg, file=sys.stderr)\n        return 1\n'
+_VSI_ITER_OK = '    schema_dir = Path(__file__).parent / "schemas"\n    schema_path = schema_dir / schema_file_name\n    schema = loads(schema_path.read_text())\n    errors = list(validator_for(schema)(schema).iter_errors(instance))\n    if errors:\n        print(error_msg, file=sys.stderr)\n        return 1\n    return 0\n'
+_VSI_ITER_BAD = '    schema_dir = Path(__file__).parent / "schemas"\n    schema_path = schema_dir / schema_file_name\n    schema = loads(schema_path.read_text())\n    errors = list(validator_for(schema)(schema).iter_errors(instance))\n    fields = [str(err.path[0]) for err in errors if err.path]\n    if fields:\n        print(error_msg, file=sys.stderr)\n        return 1\n    return 0\n'
+
 VARIANTS = [
+    Variant("validation through iter_errors, errors without a path are not counted (seeded C18_c)", "break", [(VAL, _VSI_OLD, _VSI_ITER_BAD)], "R18.3"),
+    Variant("validation through iter_errors, verdict = the error list is empty", "benign", [(VAL, _VSI_OLD, _VSI_ITER_OK)]),
     Variant("worker continues after a failed validation", "break",
             [(MGR, """    if validate_input_file(input_file_path) != 0:
         return 1
